@@ -84,21 +84,24 @@ void use_handler(int which) {
    using namespace celma::prog_args;
    int rc = 0; std::vector<int> v; int n = 0; bool f = false;
    try {
-      Handler ah(0);
+      Handler ah(Handler::hfReadProgArg);
       ah.addArgument("v,values", DEST_VAR(v), "values")->setListSep(which ? ';' : ',');
       ah.addArgument("n,number", DEST_VAR(n), "number")->addCheck(range(1, 100));
       ah.addArgument("f,flag", DEST_VAR(f), "flag")->addConstraint(requiresArg("n"));
       // handler-level constraints over different argument lists in the two threads
       if (which) ah.addConstraint(all_of("n;v")); else ah.addConstraint(all_of("f;n"));
-      char a0[] = "prog", a1[] = "-f", a2[] = "-n", a3[] = "42", a4[] = "-v"; char a5a[] = "1,2,3", a5b[] = "1;2;3";
-      char* argv[] = {a0, a1, a2, a3, a4, which ? a5b : a5a, nullptr};
-      ah.evalArguments(6, argv);
+      // "-f" comes from the program-argument file $HOME/.progargs/prog.pa (written before the threads start, read by both)
+      char a0[] = "prog", a2[] = "-n", a3[] = "42", a4[] = "-v"; char a5a[] = "1,2,3", a5b[] = "1;2;3";
+      char* argv[] = {a0, a2, a3, a4, which ? a5b : a5a, nullptr};
+      ah.evalArguments(5, argv);
    } catch (...) { rc = 1; }
    int sum = 0; for (int x : v) sum += x;
    res_rc[which] = rc; res_sum[which] = sum * 100 + (int) v.size(); res_n[which] = n;
 }
 }
+static void write_arg_files() { vs_setenv("HOME", "/tmp/vs_home"); static const char c[] = "# arguments of the program\n-f\n"; vs_file("/tmp/vs_home/.progargs/prog.pa", c, sizeof c - 1); }
 HX void hx_handlers(uint64_t) {
+   write_arg_files();
    vs_mt_shared(res_rc, sizeof res_rc); vs_mt_shared(res_sum, sizeof res_sum); vs_mt_shared(res_n, sizeof res_n);
    std::thread t1([] { use_handler(0); });
    std::thread t2([] { use_handler(1); });
@@ -107,4 +110,4 @@ HX void hx_handlers(uint64_t) {
    vs_assert(res_sum[0] == 603 && res_sum[1] == 603 && res_n[0] == 42 && res_n[1] == 42, "each thread observes exactly the results it observes running alone");
 }
 // sequential run of one thread body (candidate detection for shared static state)
-HX void hx_use_handler(uint64_t which) { use_handler((int) which); }
+HX void hx_use_handler(uint64_t which) { write_arg_files(); use_handler((int) which); }
